@@ -441,3 +441,22 @@ func ruleInstanceIDComesFromTheIDFile(c *eng.Ctx) {
 		c.Unresolved("the store of Collector.instanceID in telemetry.New")
 	}
 }
+
+// ruleRestoredGroupReplaysTheJoins (R12.5 / R06.6 extension): the assignments of a group depend on the order in which its members
+// joined (each join pushes one consumer and rebalances its streams). A group rebuilt from a snapshot therefore re-adds the
+// members one by one through addMember — the very path a logged join takes — in the order Snapshot recorded them; pushing
+// all of them first and balancing once gives a restored server other assignments, at the same epoch, than the servers that
+// applied the log.
+func ruleRestoredGroupReplaysTheJoins(c *eng.Ctx) {
+	fn := c.Fn("server.newConsumerGroup")
+	if fn == nil {
+		return
+	}
+	adds := eng.CallsIn(fn, "server.consumerGroup.addMember")
+	direct := eng.CallsIn(fn, "container/heap.Push", "server.consumerGroup.balanceAssignmentsForStream", "server.consumerGroup.addConsumer")
+	pos := c.P.Pos(fn.Pos())
+	if len(direct) > 0 {
+		pos = c.Pos(direct[0].(ssa.Instruction))
+	}
+	c.Check(len(adds) > 0 && len(direct) == 0, "a group restored from a snapshot re-adds its members the way a join does", pos, "group.addMember(member.Id, member.Streams) per recorded member, nothing else touches the heaps", "newConsumerGroup fills the subscriber heaps or balances on its own instead of re-adding each recorded member through addMember: the assignments a join-by-join history produced are not reproduced, so a server restored from a snapshot hands out other assignments for the same group epoch than the servers that applied the joins from the log")
+}
